@@ -37,7 +37,7 @@ from .consts import (
     SH_Warning,
 )
 from .errors import ConstraintLoadError, ConstraintLoadWarning, ReportableRuntimeError, ShapeLoadError
-from .helper import get_query_helper_cls
+from .helper import get_query_helper_cls, query_from_shapes_graph
 from .helper.expression_helper import value_nodes_from_path
 from .helper.path_helper import shacl_path_to_sparql_path
 from .pytypes import GraphLike, RDFNode, SHACLExecutor
@@ -365,7 +365,9 @@ class Shape(object):
                 if at['type'] == SH_SPARQLTarget:
                     qh = at['qh']
                     select = qh.apply_prefixes(qh.select_text)
-                    results = data_graph.query(select, initBindings=None)
+                    results = query_from_shapes_graph(
+                        data_graph, select, None, ShapeLoadError, "The sh:select of a SPARQL target"
+                    )
                     if not results or len(results.bindings) < 1:
                         continue
                     for r in results:
@@ -514,7 +516,9 @@ class Shape(object):
                 if at['type'] == SH_SPARQLTarget:
                     qh = at['qh']
                     select = qh.apply_prefixes(qh.select_text)
-                    results = data_graph.query(select, initBindings=None)
+                    results = query_from_shapes_graph(
+                        data_graph, select, None, ShapeLoadError, "The sh:select of a SPARQL target"
+                    )
                     if not results or len(results.bindings) < 1:
                         continue
                     for r in results:
